@@ -448,6 +448,12 @@ func runDs(v vector, m *mapping, root, base, name string, arm func()) outcome {
 		out.err = child.EnsureRelPath(name)
 	case "absroot", "absparent":
 		out.err = ds.EnsureAbsPath(base + "/" + name)
+	case "reldir":
+		names := make([]string, len(v.Segs))
+		for i, sg := range v.Segs {
+			names[i] = m.conc(sg)
+		}
+		out.err = ds.EnsureRelDir(names...)
 	default:
 		must(fmt.Errorf("unknown ds op %q", v.Op))
 	}
@@ -463,7 +469,19 @@ func newRegistry(storage string) *updater.ResourceRegistry {
 func runScan(v vector, m *mapping, reg *updater.ResourceRegistry, storage, base, name string, arm func()) outcome {
 	out := outcome{got: [][]string{}}
 	arm()
-	out.err = reg.ScanStorage(base + "/" + name)
+	if v.Op == "relroot" {
+		// a relative scan root; the working directory is the storage directory
+		wd, _ := os.Getwd()
+		must(os.Chdir(base))
+		rel := strings.TrimLeft(name, "/")
+		if rel == "" {
+			rel = "."
+		}
+		out.err = reg.ScanStorage(rel)
+		must(os.Chdir(wd))
+	} else {
+		out.err = reg.ScanStorage(base + "/" + name)
+	}
 	// everything the scan registered refers to a file: where is it?
 	for id, res := range reg.Export() {
 		for _, ver := range res.Versions {
